@@ -185,7 +185,7 @@ def choose(ctx, tuples):
 
 def model(ctx):
     runs = [("mc/DestripeFile_quick.cfg", 8)] if ctx.quick else \
-           [("mc/DestripeFile_thorough.cfg", 16), ("mc/DestripeFile_wide.cfg", 16)]
+           [("mc/DestripeFile_thorough.cfg", 16), ("mc/DestripeFile_mid.cfg", 16), ("mc/DestripeFile_wide.cfg", 16)]
     for cfg, wk in runs:
         r = tlc.run("mc/MC_DestripeFile.tla", cfg, workers=wk, timeout=3400, heap="12g")
         ctx.tlc(r, cfg)
